@@ -474,7 +474,7 @@ def r37(ctx, fx, R):
 def r38(ctx, fx, R):
     rid = ctx.rule("R3.8", "operand starts are not taken for names (regression guards): the literals `true` / `false` end at a word boundary — the tag is followed by "
                    "not(<identifier character>), so `truex` or `FalseColor` are identifiers; and the scope label `-` / `+` is not recognised in front of `(`, `$` "
-                   "or `\"`, where the `-` can only be the sign of the operand that follows (`-(3)`, `-$10`)")
+                   "or `\"`, where the `-` can only be the sign of the operand that follows (`-(3)`, `-$10`); the encoding names of `.text` end at a word boundary too")
     nf = fx.fn("mos_core::parser::number")
     sf = fx.fn("mos_core::parser::identifier_scope")
     if nf is None or sf is None:
@@ -511,6 +511,24 @@ def r38(ctx, fx, R):
                     "in an expression (`unexpected 'x'`)", nf.where)
     elif not bare:
         ctx.fail_closed(rid, "the literals true / false were not found in parser::number")
+    # the names of the encodings of `.text`: an identifier may start with one (`.text petsciiname`)
+    tf = fx.fn("mos_core::parser::text")
+    if tf is None:
+        ctx.fail_closed(rid, "parser::text not found")
+    else:
+        gt = grammar.fn_grammar(tf)
+        guarded = set()
+        for t in grammar.walk(gt):
+            if t[0] == "call" and str(t[1]).endswith("sequence::terminated") and len(t[2]) == 2 and t[2][0][0] == "tag" and t[2][1][0] == "not":
+                follow = expanded(t[2][1])
+                if any(a.startswith("alphanumeric") for a in follow) and "_" in follow:
+                    guarded.add(str(t[2][0][1]).lower())
+        for enc_name in sorted(R["encodings"]):
+            kk = "text|%s|word-boundary" % enc_name
+            ctx.inst(rid, kk, sample={"encoding": enc_name, "ends_at_a_word_boundary": enc_name in guarded})
+            if enc_name not in guarded:
+                ctx.finding(rid, kk, "the encoding name `%s` of `.text` is recognised as the start of a longer word: `.text %sname` is read as the encoding followed "
+                            "by the identifier `name` — silently another string, or `unknown identifier`" % (enc_name, enc_name), tf.where)
     g = grammar.fn_grammar(sf)
     k = "identifier_scope|not-before-operand"
     nots = [t for t in grammar.walk(g) if t[0] == "not"]
@@ -801,8 +819,9 @@ def r35(ctx, fx, R):
         g = grammar.fn_grammar(tf)
         got = {}
         for t in grammar.walk(g):
-            if t[0] == "map" and t[1][0] == "tag" and isinstance(t[2], dict):
-                got[t[1][1]] = ((lib.hpath(t[2].get("body", {})) or "").rsplit("::", 1)[-1], t[1][2])
+            if t[0] == "map" and grammar.unlook(t[1])[0] == "tag" and isinstance(t[2], dict):
+                tg = grammar.unlook(t[1])
+                got[tg[1]] = ((lib.hpath(t[2].get("body", {})) or "").rsplit("::", 1)[-1], tg[2])
         m = [n for n in lib.hwalk(enc.hir["body"]) if n.get("k") == "match"]
         earms = {}
         for a in (m[0]["arms"] if m else []):
